@@ -88,6 +88,7 @@ RunInit(out, e) ==
    evfly |-> FALSE,             \* the worker announced a boundary update and has not been seen past it yet
    wactive |-> FALSE,           \* worker events seen since the last idle point
    dropAcked |-> FALSE,
+   owners |-> {},               \* contenders currently holding the directory (C13 schedules)
    out |-> [out EXCEPT !.cnt.runs = @ + 1]]
 
 Viol(m, p, k, e, d) ==
@@ -400,7 +401,8 @@ WriteReturn(m0, e) ==
       \* the head snapshot of a chunk started during this call = the state after the record that filled the old one
       headSt(c) == LET S == {q \in 1..Len(placed) : placed[q].off + placed[q].sz = c}
                    IN IF S = {} THEN RefSt(ref1) ELSE placed[SetMin(S)].st
-      heads1 == m.heads \o [k \in 1..Len(m.newck) |-> [ck |-> m.newck[k], st |-> headSt(m.newck[k])]]
+      heads1 == m.heads \o [k \in 1..Len(m.newck) |-> [ck |-> m.newck[k], st |-> headSt(m.newck[k]),
+                                                          ul |-> IF op = "userdata" /\ rc = "ok" THEN a.ul ELSE m.ulen]]
       mA == [m EXCEPT !.ref = ref1, !.nacc = @ + nacc1, !.views = @ \o newviews,
                       !.jr = @ \o [q \in 1..Len(placed) |-> [off |-> placed[q].off, sz |-> placed[q].sz, rec |-> placed[q].rec]],
                       !.jend = jend1, !.loc = loc1, !.heads = heads1, !.newck = <<>>,
@@ -506,7 +508,7 @@ OpenReturn(m0, e) ==
                              !.obsolete = <<>>, !.oblig = <<>>]
                  ELSE [Note(m2, "unflushed_drop_unexplained", e) EXCEPT !.tainted = TRUE]
       \* a head snapshot created by this open carries the recovered state
-      m4 == [m3 EXCEPT !.heads = @ \o [k \in 1..Len(m.newck) |-> [ck |-> m.newck[k], st |-> RefSt(m.ref)]],
+      m4 == [m3 EXCEPT !.heads = @ \o [k \in 1..Len(m.newck) |-> [ck |-> m.newck[k], st |-> RefSt(m.ref), ul |-> m.ulen]],
                        !.newck = <<>>]
   IN CheckCache(m4, e, o, FALSE)
 
@@ -650,6 +652,20 @@ LockTryStep(m0, e) ==
 
 \* the `set_ev` point is logged BEFORE the boundary is assigned; the assignment is certainly over when the
 \* same worker is seen at its next FS call or point
+\* C13 schedules: contenders (threads or child processes, RaftLog::open or Dump::new) open and drop the directory
+LkStep(m0, e) ==
+  LET m == Cnt(m0, "locktries") IN
+  IF e.op = "drop" THEN [m EXCEPT !.owners = @ \ {e.c}]
+  ELSE IF e.rc = "panic" THEN ViolKeep(m, "C13", "contender_panicked", e, [c |-> e.c, kind |-> e.kind, res |-> e.res])
+  ELSE IF e.rc = "ok"
+       THEN IF m.owners # {}
+            THEN ViolKeep([m EXCEPT !.owners = @ \cup {e.c}], "C13", "second_owner_admitted", e,
+                          [c |-> e.c, kind |-> e.kind, proc |-> e.proc, owners |-> m.owners])
+            ELSE [m EXCEPT !.owners = {e.c}]
+  ELSE IF m.owners = {} THEN ViolKeep(m, "C13", "free_directory_refused", e, [c |-> e.c, kind |-> e.kind, proc |-> e.proc, res |-> e.res])
+  ELSE IF ~e.same THEN ViolKeep(m, "C13", "refused_contender_modified_files", e, [c |-> e.c, kind |-> e.kind, proc |-> e.proc])
+  ELSE m
+
 PtStep(m, e) ==
   IF e.p = "set_ev" THEN [m EXCEPT !.evmoved = TRUE, !.evfly = TRUE, !.wactive = TRUE]
   ELSE [m EXCEPT !.wactive = TRUE, !.evfly = FALSE]
@@ -690,9 +706,104 @@ PendingViews(m) ==
        THEN {RefView(AppendSeq(m.ref, SubSeq(m.pend.args.es, 1, j)).st) : j \in 1..Len(m.pend.args.es)}
        ELSE {}
 
+\* the effect of one journal record on a reference-shaped state (recovery replays records, it does not validate history)
+ApplyRec(r, rec) ==
+  CASE rec.k = "vote"   -> [r EXCEPT !.vote = rec.v]
+    [] rec.k = "app"    -> [r EXCEPT !.log = Append(SelectSeq(@, LAMBDA x : x[2] < rec.id[2]), <<rec.id[1], rec.id[2], rec.p[1], rec.p[2]>>),
+                                     !.last = rec.id]
+    [] rec.k = "commit" -> [r EXCEPT !.committed = rec.id]
+    [] rec.k = "trunc"  -> [r EXCEPT !.log = SelectSeq(@, LAMBDA x : x[2] < NextIdx(rec.id)),
+                                     !.last = IF Lt(rec.id, @) THEN rec.id ELSE @]
+    [] rec.k = "purge"  -> [r EXCEPT !.log = SelectSeq(@, LAMBDA x : x[2] > rec.id[2]),
+                                     !.purged = MaxId(@, rec.id), !.last = MaxId(@, rec.id)]
+    [] rec.k = "state"  -> [r EXCEPT !.vote = rec.st.v, !.last = rec.st.l, !.committed = rec.st.c,
+                                     !.purged = rec.st.p, !.user = rec.st.u]
+    [] OTHER            -> r
+
+RECURSIVE FoldRecs(_, _, _)
+FoldRecs(r, recs, k) == IF k > Len(recs) THEN r ELSE FoldRecs(ApplyRec(r, recs[k].rec), recs, k + 1)
+
+\* what the records PHYSICALLY PRESENT in the retained files amount to when the journal ends at global offset B:
+\* the head snapshot of the oldest retained file, then every record up to B
+FoldPresent(m, B) ==
+  LET c0 == SetMin(LinkedCks(m))
+      h0 == HeadOf(m, c0)
+      base == [RefInit EXCEPT !.vote = h0.st.v, !.last = h0.st.l, !.committed = h0.st.c, !.purged = h0.st.p, !.user = h0.st.u]
+  IN IF B <= c0 THEN RefInit
+     ELSE FoldRecs(base, SelectSeq(m.jr, LAMBDA x : x.off >= c0 /\ x.off + x.sz <= B), 1)
+
+\* C10: the newest chunk of the final, fully flushed image cut at byte e.cut, or zero-filled for e.zero[2]
+\* bytes from the record boundary e.zero[1]; both settings of truncate_incomplete_record (e.tr)
+TailProbe(m, e) ==
+  LET ck == e.ck
+      j == FileIdx(m, ck)
+      h == HeadOf(m, ck)
+  IN
+  IF ~m.sizeok \/ j = 0 \/ LinkedCks(m) = {} \/ h.ck = -1 \/ HeadOf(m, SetMin(LinkedCks(m) \cup {ck})).ck = -1
+  THEN Note(m, "tail_probe_not_applicable", e)
+  ELSE IF ck # SetMax(LinkedCks(m)) \/ m.files[j].w # m.jend - ck \/ m.files[j].w # e.len
+       THEN Note(m, "tail_probe_not_applicable", e)
+  ELSE
+  LET hs == StateSize(h.st, h.ul)
+      inck == SelectSeq(m.jr, LAMBDA r : r.off >= ck)
+      ends == {ck, ck + hs} \cup {inck[q].off + inck[q].sz : q \in 1..Len(inck)}
+      isCut == e.cut >= 0
+      x == IF isCut THEN ck + e.cut ELSE ck + e.zero[1]
+      B == SetMax({b \in ends : b <= x})
+      incomplete == IF isCut THEN B # x ELSE TRUE
+      lost == Cardinality({q \in 1..Len(inck) : inck[q].off + inck[q].sz > B})
+      k == m.nacc - lost
+      after == {q \in 1..Len(e.files_after) : e.files_after[q][1] = ck}
+  IN
+  IF ~isCut /\ ~(x \in ends) THEN Note(m, "tail_probe_boundary_unknown", e)
+  ELSE IF k < m.vbase THEN Note(m, "tail_probe_not_applicable", e)
+  ELSE IF e.rc = "panic" THEN ViolKeep(m, "C10", "recovery_panicked_on_tail", e, [cut |-> e.cut, zero |-> e.zero, tr |-> e.tr, res |-> e.res])
+  ELSE IF ~e.tr /\ incomplete
+  THEN \* truncation disabled and the image holds an incomplete or zero tail: open must fail and touch nothing
+       IF e.rc = "ok" THEN ViolKeep(m, "C10", "opened_although_truncation_disabled", e, [cut |-> e.cut, zero |-> e.zero])
+       ELSE IF ~e.same THEN ViolKeep(m, "C10", "refused_open_modified_files", e, [cut |-> e.cut, zero |-> e.zero])
+       ELSE m
+  ELSE
+  LET \* exactly the records that are completely present (files deleted earlier contribute nothing)
+      want == RefView(FoldPresent(m, B)) IN
+  IF e.rc # "ok" THEN ViolKeep(m, "C10", "tail_not_recovered", e, [cut |-> e.cut, zero |-> e.zero, tr |-> e.tr, res |-> e.res, boundary |-> B - ck])
+  ELSE IF e.obs.esr # "ok" \/ ObsView(e.obs) # want
+  THEN ViolKeep(m, "C10", "wrong_prefix_recovered", e,
+                [cut |-> e.cut, zero |-> e.zero, tr |-> e.tr, got |-> ObsView(e.obs), want |-> want, boundary |-> B - ck])
+  ELSE IF B > ck /\ (after = {} \/ \E q \in after : e.files_after[q][2] # B - ck)
+  THEN ViolKeep(m, "C10", "file_length_after_recovery", e, [cut |-> e.cut, zero |-> e.zero, files |-> e.files_after, boundary |-> B - ck])
+  ELSE IF "cont" \in DOMAIN e /\ e.cont.res # "skipped"
+  THEN IF e.cont.rc # "ok" THEN ViolKeep(m, "C10", "writes_do_not_continue_after_recovery", e, [res |-> e.cont.res, cut |-> e.cut, zero |-> e.zero])
+       ELSE LET ent == e.cont.entry
+                w2 == [st |-> [e.obs.st EXCEPT !.l = <<ent[1], ent[2]>>], es |-> Append(e.obs.es, ent)]
+            IN IF e.cont.obs2.esr # "ok" \/ ObsView(e.cont.obs2) # w2
+               THEN ViolKeep(m, "C10", "writes_do_not_continue_after_recovery", e, [got |-> ObsView(e.cont.obs2), want |-> w2, cut |-> e.cut, zero |-> e.zero])
+               ELSE m
+  ELSE m
+
+\* C09: one byte of a complete record altered (kind damage), or a middle chunk removed (kind missing)
+DamageProbe(m, e) ==
+  IF e.kind = "missing"
+  THEN IF e.rc = "ok" THEN ViolKeep(m, "C09", "missing_chunk_absorbed", e, [ck |-> e.ck])
+       ELSE IF e.rc = "panic" THEN ViolKeep(m, "C09", "panic_on_missing_chunk", e, [ck |-> e.ck, res |-> e.res])
+       ELSE IF ~e.same_others THEN ViolKeep(m, "C09", "refused_open_modified_other_files", e, [ck |-> e.ck, field |-> "missing", past_eof |-> FALSE, newest |-> FALSE])
+       ELSE m
+  ELSE
+  IF e.rc = "panic" THEN ViolKeep(m, "C09", "panic_on_damaged_image", e, [ck |-> e.ck, at |-> e.at, field |-> e.field, res |-> e.res])
+  ELSE IF e.rc = "ok"
+  THEN ViolKeep(m, "C09", "corruption_absorbed", e,
+                [ck |-> e.ck, at |-> e.at, old |-> e.old, new |-> e.new, field |-> e.field, past_eof |-> e.past_eof,
+                 newest |-> e.newest, same_view |-> e.obs.esr = "ok" /\ ObsView(e.obs) = RefView(m.ref)])
+  ELSE IF ~e.same_others
+  THEN ViolKeep(m, "C09", "refused_open_modified_other_files", e,
+                [ck |-> e.ck, at |-> e.at, field |-> e.field, past_eof |-> e.past_eof, newest |-> e.newest])
+  ELSE m
+
 ProbeStep(m0, e) ==
   LET m == Cnt(m0, "probes") IN
-  IF e.kind # "crash" THEN m
+  IF e.kind = "tail" THEN TailProbe(m, e)
+  ELSE IF e.kind \in {"damage", "missing"} THEN DamageProbe(m, e)
+  ELSE IF e.kind # "crash" THEN m
   ELSE IF ~ImageAllowed(m, e.img) THEN Note(m, "probe_image_outside_crash_model", e)
   ELSE IF e.rc = "panic" THEN ViolKeep(m, "C05", "recovery_panicked", e, [res |-> e.res, img |-> e.img])
   ELSE IF e.rc = "err"
@@ -744,6 +855,7 @@ MonStep(m0, e) ==
     [] e.e = "drain" -> DrainStep(m, e)
     [] e.e = "obs" -> ObsStep(m, e)
     [] e.e = "locktry" -> LockTryStep(m, e)
+    [] e.e = "lk" -> LkStep(m, e)
     [] e.e = "pt" -> PtStep(m, e)
     [] e.e = "crash" -> CrashStep(m, e)
     [] e.e = "probe" -> ProbeStep(m, e)
@@ -760,4 +872,6 @@ KnownFinding(v) ==
   \/ /\ v.p = "C16" /\ v.k = "panic" /\ v.d.at_integer_limit
      /\ v.d.res = "panic:attempt to add with overflow"                                           \* F2c
   \/ /\ v.p = "C05" /\ v.k = "open_failed_after_crash" /\ v.d.cls \in {"gap", "empty_chunk"} /\ v.d.short_pred   \* F4
+  \/ /\ v.p = "C09" /\ v.k \in {"corruption_absorbed", "refused_open_modified_other_files"}
+     /\ v.d.past_eof                                                                             \* F6
 =============================================================================
